@@ -881,7 +881,8 @@ class PathEval:
         with its variables havocked -- it is N copies of its body, exactly"""
         for b in sorted(self.body.loops[h]):
             t = self.body.blocks[b]["term"]
-            if t["k"] == "call" and "array::IntoIter<" in t["func"]["full"] and t["func"]["path"].endswith("Iterator>::next") and t["args"]:
+            if t["k"] == "call" and ("array::IntoIter<" in t["func"]["full"] or "slice::Iter<" in t["func"]["full"]) and t["func"]["path"].endswith("Iterator>::next") and t["args"]:
+                byref = "slice::Iter<" in t["func"]["full"]
                 a = t["args"][0]
                 l = None
                 if a["k"] in ("move", "copy") and not a["place"]["p"]:
@@ -904,10 +905,11 @@ class PathEval:
                 v = self.read_local(st, l)
                 while isinstance(v, tuple) and v and v[0] in ("ref", "refmut"):
                     v = v[1]
-                if isinstance(v, tuple) and v and v[0] == "call" and v[1].endswith("::into_iter") and "IntoIterator" in v[1] and v[3]:
-                    arr = v[3][0]
-                    if isinstance(arr, tuple) and arr[:2] == ("agg", "array") and len(arr[4]) <= 8:
-                        return l, tuple(arr[4])
+                if isinstance(v, tuple) and v and v[0] == "call" and ((v[1].endswith("::into_iter") and "IntoIterator" in v[1]) or v[1].endswith("[T]>::iter")) and v[3]:
+                    # an array literal, or a constant table (`for x in TABLE` / `for x in &TABLE` / `for x in TABLE.iter()`)
+                    elems = self._const_elems(v[3][0])
+                    if elems is not None and len(elems) <= 16:
+                        return l, tuple(("ref", e) for e in elems) if byref else tuple(elems)
                 return None
         return None
 
@@ -1004,7 +1006,7 @@ class PathEval:
                         self.assign(st, t["dest"], old, bb, events)
                         bb = t["target"]
                         continue
-                if "array::IntoIter<" in f["full"] and path.endswith("Iterator>::next") and args and st.get("unroll"):
+                if ("array::IntoIter<" in f["full"] or "slice::Iter<" in f["full"]) and path.endswith("Iterator>::next") and args and st.get("unroll"):
                     r = args[0]
                     rl = r[1][1] if isinstance(r, tuple) and r[0] == "refmut" and isinstance(r[1], tuple) and r[1][0] == "loc" else None
                     hit = [u for u in st["unroll"].values() if u and u[0] == rl]
@@ -1060,8 +1062,8 @@ class PathEval:
                     self._finish(out, blocks, events, ("diverge", bb), st)
                     return
                 alts = self._desugar(path, args, tuple(f.get("gargs", ())), bb) if self.desugar else None
-                if alts is None and self.desugar and path.endswith("Iterator>::find") and len(args) == 2:
-                    alts = self._find_in_const_table(args, bb)
+                if alts is None and self.desugar and len(args) == 2 and path.rsplit("::", 1)[-1] in ("find", "any", "all", "position") and "Iterator" in path:
+                    alts = self._find_in_const_table(args, bb, path.rsplit("::", 1)[-1])
                 if alts is None and len(args) == 2 and ((path.rsplit("::", 1)[-1] in ("call", "call_mut", "call_once") and ("ops::Fn" in path or "function::Fn" in path))
                                                         or (self.fx.fns.get(path) or {}).get("kind") == "Closure"):
                     # a local closure called directly is a local helper: splice its body in (none exists in the tree the rules were written against)
@@ -1204,9 +1206,36 @@ class PathEval:
                 return ("const", "isize", d)
         return ("discr", o)
 
-    def _find_in_const_table(self, args, bb):
-        """TABLE.iter().find(pred) over a constant array of at most 16 known elements, evaluated as the if-chain it abbreviates:
-        element 0 if pred holds for it, else element 1 if .., else None.  (A table of (name, value) pairs searched by name is a `match` on the name.)"""
+    def _const_elems(self, tab, depth=0):
+        while isinstance(tab, tuple) and tab and tab[0] in ("ref", "refmut", "deref"):
+            tab = tab[1]
+        if depth < 4 and isinstance(tab, tuple) and tab and tab[0] == "call" and tab[3] and (tab[1].endswith("[T]>::iter") or (tab[1].endswith("::into_iter") and "IntoIterator" in tab[1])):
+            return self._const_elems(tab[3][0], depth + 1)       # into_iter() of an iterator is that iterator; iter() of a table walks the table
+        if depth < 4 and isinstance(tab, tuple) and tab and tab[0] == "cast" and len(tab) > 2:
+            return self._const_elems(tab[-1], depth + 1)
+        if isinstance(tab, tuple) and tab[:1] == ("const",) and isinstance(tab[2], tuple) and tab[2] and tab[2][0] == "promoted" and depth < 4:
+            # a promoted constant: the value its body returns
+            key = "%s::promoted[%d]" % (tab[2][1], tab[2][2])
+            f = self.fx.fns.get(key)
+            if f is not None:
+                try:
+                    ps = PathEval(self.fx, Body(f)).paths()
+                except Exception:
+                    ps = []
+                rets = [p.end[1] for p in ps if p.end[0] == "return"]
+                if len(rets) == 1:
+                    return self._const_elems(rets[0], depth + 1)
+            return None
+        if isinstance(tab, tuple) and tab[:1] == ("const",) and isinstance(tab[2], tuple) and tab[2] and tab[2][0] == "raw":
+            return parse_const_table(tab[2][1], tab[1])
+        if isinstance(tab, tuple) and tab[:2] == ("agg", "array"):
+            return tab[4]
+        return None
+
+    def _find_in_const_table(self, args, bb, how="find"):
+        """TABLE.iter().find(pred) / .any(pred) / .all(pred) / .position(pred) over a constant array of at most 16 known elements, evaluated as
+        the if-chain it abbreviates: element 0 if pred holds for it, else element 1 if .., else None (find); true at the first element that passes
+        (any) / false at the first that fails (all).  (A table of (name, value) pairs searched by name is a `match` on the name.)"""
         it = args[0]
         while isinstance(it, tuple) and it and it[0] in ("refmut", "ref"):
             it = it[1]
@@ -1214,32 +1243,31 @@ class PathEval:
             it = it[2]
         if not (isinstance(it, tuple) and it and it[0] == "call" and it[1].endswith("[T]>::iter") and it[3]):
             return None
-        tab = it[3][0]
-        while isinstance(tab, tuple) and tab and tab[0] in ("ref", "refmut"):
-            tab = tab[1]
-        elems = None
-        if isinstance(tab, tuple) and tab[:1] == ("const",) and isinstance(tab[2], tuple) and tab[2] and tab[2][0] == "raw":
-            elems = parse_const_table(tab[2][1], tab[1])
-        elif isinstance(tab, tuple) and tab[:2] == ("agg", "array"):
-            elems = tab[4]
+        elems = self._const_elems(it[3][0])
         if not elems or len(elems) > 16:
             return None
         OPT = "std::option::Option"
+        T, F = ("const", "bool", True), ("const", "bool", False)
         out = []
-        prefix = []          # facts: the predicate failed on every earlier element
-        for e in elems:
-            r = self._apply(args[1], (("ref", ("ref", e)),), bb)
+        prefix = []          # facts: the predicate failed (all: passed) on every earlier element
+        stop_on = how != "all"      # the truth value of the predicate that ends the scan
+
+        def hit(i, e):
+            return {"find": ("agg", "adt", OPT, "Some", (("ref", e),), ("0",)), "position": ("agg", "adt", OPT, "Some", (("const", "usize", i),), ("0",)), "any": T, "all": F}[how]
+        miss = {"find": ("agg", "adt", OPT, "None", (), ()), "position": ("agg", "adt", OPT, "None", (), ()), "any": F, "all": T}[how]
+        for i, e in enumerate(elems):
+            r = self._apply(args[1], (("ref", ("ref", e)),) if how == "find" else (("ref", e),), bb)
             if len(r) != 1 or r[0][1] or r[0][2] is None or (isinstance(r[0][2], tuple) and r[0][2][:2] == ("call", "closure-apply")):
                 return None
             v = r[0][2]
             if isinstance(v, tuple) and v[0] == "const" and isinstance(v[2], bool):
-                if v[2]:
-                    out.append(([], list(prefix), ("agg", "adt", OPT, "Some", (("ref", e),), ("0",))))
+                if v[2] == stop_on:
+                    out.append(([], list(prefix), hit(i, e)))
                     return out
                 continue
-            out.append(([], list(prefix) + [(v, ("eq", True))], ("agg", "adt", OPT, "Some", (("ref", e),), ("0",))))
-            prefix.append((v, ("eq", False)))
-        out.append(([], list(prefix), ("agg", "adt", OPT, "None", (), ())))
+            out.append(([], list(prefix) + [(v, ("eq", stop_on))], hit(i, e)))
+            prefix.append((v, ("eq", not stop_on)))
+        out.append(([], list(prefix), miss))
         return out
 
     def _apply(self, f, args, bb):
